@@ -98,33 +98,42 @@ GenOps(ops, dims, inds) ==
 
 (* ---------------- _dim_compressor / dim_compress ---------------- *)
 \* st = [id |-> blocksize_id, op |-> blocksize_op, au |-> autoplace_count, out |-> yielded pairs]
-RECURSIVE CompressScan(_, _, _, _)
-CompressScan(dims, inds, s, st) ==
+\* skip1: "if dim == 1: continue" (a subsystem of size 1 carries no index).  FALSE is the code before
+\* that line existed, kept as a named deviation: blocks of accumulated size 1 are then never flushed
+\* and the final fall-through yields a block of size 0 (see C15_Ptr, config MC_ptr_prefix.cfg).
+RECURSIVE CompressScanV(_, _, _, _, _)
+CompressScanV(dims, inds, s, st, skip1) ==
   IF s > Len(dims)
   THEN Append(st.out, IF st.op > 1 THEN <<st.op, 1>> ELSE IF st.id > 1 THEN <<st.id, 0>> ELSE <<st.au, 1>>)
   ELSE LET dim == dims[s] IN
+       IF skip1 /\ dim = 1 THEN CompressScanV(dims, inds, s + 1, st, skip1) ELSE
        IF dim < 0
        THEN LET st1 == IF st.op > 1 THEN [st EXCEPT !.out = Append(@, <<st.op, 1>>), !.op = 1]
                        ELSE IF st.id > 1 THEN [st EXCEPT !.out = Append(@, <<st.id, 0>>), !.id = 1]
                        ELSE st
-            IN  CompressScan(dims, inds, s + 1, [st1 EXCEPT !.au = @ + dim])
+            IN  CompressScanV(dims, inds, s + 1, [st1 EXCEPT !.au = @ + dim], skip1)
        ELSE IF s \in inds
        THEN LET st1 == IF st.id > 1 THEN [st EXCEPT !.out = Append(@, <<st.id, 0>>), !.id = 1]
                        ELSE IF st.au < 0 THEN [st EXCEPT !.out = Append(@, <<st.au, 1>>), !.au = 0]
                        ELSE st
-            IN  CompressScan(dims, inds, s + 1, [st1 EXCEPT !.op = @ * dim])
+            IN  CompressScanV(dims, inds, s + 1, [st1 EXCEPT !.op = @ * dim], skip1)
        ELSE LET st1 == IF st.op > 1 THEN [st EXCEPT !.out = Append(@, <<st.op, 1>>), !.op = 1]
                        ELSE IF st.au < 0 THEN [st EXCEPT !.out = Append(@, <<st.au, 1>>), !.au = 0]
                        ELSE st
-            IN  CompressScan(dims, inds, s + 1, [st1 EXCEPT !.id = @ * dim])
+            IN  CompressScanV(dims, inds, s + 1, [st1 EXCEPT !.id = @ * dim], skip1)
 
-DimCompressor(dims, inds) == CompressScan(dims, inds, 1, [id |-> 1, op |-> 1, au |-> 0, out |-> <<>>])
+DimCompressorV(dims, inds, skip1) ==
+  CompressScanV(dims, inds, 1, [id |-> 1, op |-> 1, au |-> 0, out |-> <<>>], skip1)
+DimCompressor(dims, inds) == DimCompressorV(dims, inds, TRUE)
 \* dim_compress: <<new dims, set of (1-based) marked positions>>
-DimCompress(dims, inds) ==
-  LET pr == DimCompressor(dims, inds)
+DimCompressV(dims, inds, skip1) ==
+  LET pr == DimCompressorV(dims, inds, skip1)
   IN  << [k \in 1..Len(pr) |-> pr[k][1]], {k \in 1..Len(pr) : pr[k][2] = 1} >>
+DimCompress(dims, inds) == DimCompressV(dims, inds, TRUE)
 
 (* ---------------- sparse partial trace ---------------- *)
+\* "nothing (of size > 1) is kept -> keep a trivial subsystem": _trace_keep(p, (*dims, 1), len(dims))
+\* (defined after TraceKeep below)
 \* _trace_keep(p, dims, keep): only the upper triangle is computed, the lower one is its conjugate
 TraceKeep(p, dims, k) ==
   LET s == dims[k]
@@ -133,6 +142,8 @@ TraceKeep(p, dims, k) ==
       up(i, j) == GSum([kk \in 1..a |-> GSum([t \in 1..b |->
                        At(p, b * i + s * b * (kk - 1) + t - 1, b * j + s * b * (kk - 1) + t - 1)])])
   IN  Mat(s, s, LAMBDA i, j : IF i <= j THEN up(i, j) ELSE GConj(up(j, i)))
+
+TraceKeepNothing(p, dims) == TraceKeep(p, dims \o <<1>>, Len(dims) + 1)
 
 \* _trace_lose(p, dims, lose)
 TraceLose(p, dims, l) ==
@@ -152,9 +163,4 @@ LMax(dims, keep) ==
 ShiftKeep(keep, l) == {IF k < l THEN k ELSE k - 1 : k \in keep}
 DropAt(seq, l) == SubSeq(seq, 1, l - 1) \o SubSeq(seq, l + 1, Len(seq))
 
-\* the smallest repair proposed in notes/C15_report.md: subsystems of dimension 1 carry no index,
-\* strip them before compressing, and return the plain trace when nothing non-trivial is kept
-StripOnesDims(dims) == SelectSeq(dims, LAMBDA d : d # 1)
-StripOnesKeep(dims, keep) ==
-  {Cardinality({m \in 1..k : dims[m] # 1}) : k \in {kk \in keep : dims[kk] # 1}}
 =============================================================================
